@@ -437,31 +437,28 @@ func (w *world) rawHeight() (int, bool) {
 	return w.rel(h), true
 }
 
-// nextBlock returns the block that extends the twin's (= the expected) chain: id (n, ver[n]); a
-// block already built under that id on a different parent is left alone and a fresh version used.
+// nextBlock returns the block that extends the twin's (= the expected) chain: id (n, ver[n]).
 func (w *world) nextBlock() (bk, *chainkit.Built, error) {
 	n := w.twinHeight() + 1
 	parent := &felt.Zero
 	if hd, err := w.twin.BC.HeadsHeader(); err == nil {
 		parent = hd.Hash
 	}
-	for {
-		id := bk{n, w.ver[n]}
-		b, ok := w.built[id]
-		if ok && b.Block.ParentHash.Equal(parent) {
+	id := bk{n, w.ver[n]}
+	if b, ok := w.built[id]; ok {
+		if b.Block.ParentHash.Equal(parent) {
 			return id, b, nil
 		}
-		if ok {
-			w.ver[n]++
-			continue
-		}
-		b, err := w.twin.Build(blockSpec(w.seed, w.off, id.N, id.V))
-		if err != nil {
-			return id, nil, fmt.Errorf("twin build %v: %w", id, err)
-		}
-		w.note(id, b)
-		return id, b, nil
+		// built earlier on another parent and never committed (a committed id is never offered
+		// again: ver[n] moves on): the id keeps its number and version, as in the specification
+		delete(w.byHash, *b.Block.Hash)
 	}
+	b, err := w.twin.Build(blockSpec(w.seed, w.off, id.N, id.V))
+	if err != nil {
+		return id, nil, fmt.Errorf("twin build %v: %w", id, err)
+	}
+	w.note(id, b)
+	return id, b, nil
 }
 
 // store builds the next block on the twin and stores it on the node under the given fault; the
